@@ -26,6 +26,7 @@ struct RouterSession : Session {
     SimRouter *router = nullptr;
     std::map<int, Sh> shapes;
     std::map<int, Cn> conns;
+    std::vector<Pt> everRestrictedEnds;      // every free end position that ever carried a direction restriction in this session
     std::map<int, Jn> junctions;
     struct Cl { Avoid::ClusterRef *ref = nullptr; bool alive = false; };
     std::map<int, Cl> clusters;
